@@ -49,6 +49,8 @@ import (
 //	                                       (see clientRace: op A is started alone with a gate in the transporter that
 //	                                       holds the first NewProxy (N) / CloseProxy (C) just before it goes on the
 //	                                       wire; op B is started on another goroutine while the message is held)
+//	wake SW|WS <tick|hup|hdown> <name> <now> / <upd …|close>   (eng_client_wake.go: the worker's wake-up and its locked
+//	                                       section as separate steps, Stop() in between)
 type capTransporter struct {
 	mu sync.Mutex
 	ev []string
@@ -203,6 +205,8 @@ type clientState struct {
 	handed   chan struct{}
 	busyLn   net.Listener
 	names    map[string]bool // every proxy name ever configured (for lock-free-of-wrapper snapshots)
+	// op wake: the reload on the other goroutine must not touch the deadline flags set for the woken worker
+	keepTimings bool
 }
 
 var cst *clientState
@@ -648,6 +652,17 @@ func clientExec(tok []string) string {
 			return "badop"
 		}
 		return s.race(tok[1], tok[2:sep], tok[sep+1:])
+	case "wake":
+		sep := -1
+		for i, t := range tok {
+			if t == "/" {
+				sep = i
+			}
+		}
+		if len(tok) < 7 || sep != 5 {
+			return "badop"
+		}
+		return s.wake(tok[1], tok[2:sep], tok[sep+1:])
 	case "close":
 		var all []*proxy.Wrapper
 		for _, st := range s.pm.GetAllProxyStatus() {
@@ -1180,6 +1195,92 @@ func clientGen(rng *rand.Rand, n int, emit func(string)) {
 			emit("race " + pick(rng, []string{"N", "C"}) + pick(rng, []string{"", strconv.Itoa(x)}) + " " + a + " / " + genB(x, true))
 		}
 	}
+	// ---- the worker has left its select (timer / health notification) but not yet taken pw.mu when a reload
+	// stops the wrapper (op wake).  Classes: the phase the wrapper is in (new-after-withdrawal / wait start before
+	// and past its deadline / start error before and past its back-off / running / check failed), the kind of
+	// wake-up (timer or notification = tick, success callback, failure callback), who gets the mutex first
+	// (SW: Stop, then the worker's locked section; WS: the reverse), what the reload does with the proxy
+	// (removes it / changes one field / keeps it / Manager.Close / unrelated list).
+	wakeHealth := 4 + n/700
+	emitWake := func() {
+		x := rng.Intn(5)
+		if len(cur) > 0 && rng.Intn(8) != 0 {
+			x = cur[rng.Intn(len(cur))].name
+		}
+		fresh := func(v int) {
+			next := without(x)
+			next = append(next, ent{x, v})
+			emit(fmtUpd(next))
+		}
+		kind := "tick"
+		h := false
+		if v := variantOf(x); v >= 0 {
+			h, _ = variantFlags(v)
+		}
+		switch sc := rng.Intn(10); {
+		case sc < 2 && h, sc < 1 && wakeHealth > 0:
+			// a health-checked proxy: the monitor's callback is the wake-up
+			if !h {
+				wakeHealth--
+				maxHealthUpdates++
+				fresh(10 + rng.Intn(3))
+			}
+			switch rng.Intn(4) {
+			case 0: // first success: registration due
+				kind = "hup"
+			case 1: // registered, then the failure callback: withdrawal due
+				emit(fmt.Sprintf("hup %d %d", x, adv()))
+				if rng.Intn(2) == 0 {
+					emit(fmt.Sprintf("resp %d %d ok", x, adv()))
+				}
+				kind = "hdown"
+			case 2: // withdrawn, recovery: registration due from `check failed`
+				emit(fmt.Sprintf("hup %d %d", x, adv()))
+				emit(fmt.Sprintf("hdown %d %d", x, adv()))
+				kind = "hup"
+			default:
+				emit(fmt.Sprintf("hup %d %d", x, adv()))
+				kind = pick(rng, []string{"tick", "hup", "hdown"})
+			}
+		case sc < 4:
+			// wait start, the reply deadline passes (or not quite)
+			fresh(plainVariant())
+			now += pick(rng, []int{20001, 20001, 19999, 60000})
+		case sc < 6:
+			// start error, the back-off passes (or not quite)
+			fresh(plainVariant())
+			emit(fmt.Sprintf("resp %d %d err", x, adv()))
+			now += pick(rng, []int{30001, 30001, 29999, 60000})
+		case sc < 8:
+			// running
+			if variantOf(x) < 0 || h || rng.Intn(2) == 0 {
+				fresh(plainVariant())
+			}
+			emit(fmt.Sprintf("resp %d %d ok", x, adv()))
+		default:
+			// whatever state it is in
+		}
+		wop := fmt.Sprintf("%s %d %d", kind, x, adv())
+		var b string
+		switch r := rng.Intn(12); {
+		case r < 5:
+			b = fmtUpd(without(x))
+		case r < 8:
+			b = fmtUpd(changed(x))
+		case r < 9:
+			b = fmtUpd(append([]ent(nil), cur...))
+		case r < 10:
+			b = fmtUpd(genCfgs())
+		default:
+			nStopped += len(cur)
+			cur = nil
+			b = "close"
+		}
+		emit("wake " + pick(rng, []string{"SW", "SW", "WS"}) + " " + wop + " / " + b)
+		if rng.Intn(2) == 0 {
+			emit("status")
+		}
+	}
 	for i := 0; i < n; i++ {
 		name := rng.Intn(5)
 		if len(cur) > 0 && rng.Intn(8) != 0 {
@@ -1220,6 +1321,10 @@ func clientGen(rng *rand.Rand, n int, emit func(string)) {
 		}
 		if rng.Intn(100) < 5 {
 			emitRace()
+			continue
+		}
+		if rng.Intn(100) < 4 {
+			emitWake()
 			continue
 		}
 		if len(cur) > 0 && rng.Intn(100) < 9 {
